@@ -419,6 +419,12 @@ func (fc *FnCtx) instr(ins ssa.Instruction) {
 		if len(ci.bindings) == 1 && strings.HasSuffix(ci.fn.Name(), "$bound") {
 			fc.assume(fmt.Sprintf("(= (|$fnRecv| %s) %s)", r, ci.bindings[0].t), "bound method receiver")
 		}
+		// ownChannels(f): every captured value through which the closure could reach a channel was made by the
+		// function that builds the closure (decided on the SSA form; see closureOwnsItsChannels)
+		if closureOwnsItsChannels(x) {
+			g.declareFun("|$ownChans|", "(Int) Bool")
+			fc.assume(fmt.Sprintf("(|$ownChans| %s)", r), "closure captures only channels made by its creator")
+		}
 	case *ssa.MakeInterface:
 		fc.makeInterface(x)
 	case *ssa.ChangeInterface:
@@ -1140,4 +1146,78 @@ func (fc *FnCtx) chanOwner(ch ssa.Value) (string, string, bool) {
 		return "", "", false
 	}
 	return fc.term(fa.X).t, gname, true
+}
+
+// closureOwnsItsChannels: every binding of the closure whose type can reach a channel (a channel, or a pointer / struct
+// with a channel-typed field within three levels) is a variable of the creating function (an Alloc) that is only ever
+// assigned channels / objects made by that same function, or such a freshly made object itself.
+func closureOwnsItsChannels(mc *ssa.MakeClosure) bool {
+	fn := mc.Parent()
+	var madeHere func(v ssa.Value, depth int) bool
+	madeHere = func(v ssa.Value, depth int) bool {
+		if depth > 3 {
+			return false
+		}
+		switch y := v.(type) {
+		case *ssa.MakeChan:
+			return y.Parent() == fn
+		case *ssa.Const:
+			return true
+		case *ssa.Alloc:
+			if y.Parent() != fn {
+				return false
+			}
+			for _, ref := range *y.Referrers() {
+				switch u := ref.(type) {
+				case *ssa.Store:
+					if u.Addr == y {
+						if !madeHere(u.Val, depth+1) {
+							return false
+						}
+					} else {
+						return false // the variable's address escapes into the heap
+					}
+				case *ssa.UnOp, *ssa.DebugRef, *ssa.MakeClosure:
+				default:
+					return false
+				}
+			}
+			return true
+		}
+		return false
+	}
+	for _, b := range mc.Bindings {
+		if !typeReachesChan(b.Type(), 0) {
+			continue
+		}
+		if !madeHere(b, 0) {
+			return false
+		}
+	}
+	return true
+}
+
+func typeReachesChan(t types.Type, depth int) bool {
+	if depth > 4 {
+		return false
+	}
+	switch u := t.Underlying().(type) {
+	case *types.Chan:
+		return true
+	case *types.Pointer:
+		return typeReachesChan(u.Elem(), depth+1)
+	case *types.Struct:
+		for i := 0; i < u.NumFields(); i++ {
+			if typeReachesChan(u.Field(i).Type(), depth+1) {
+				return true
+			}
+		}
+	case *types.Slice:
+		return typeReachesChan(u.Elem(), depth+1)
+	case *types.Map:
+		return typeReachesChan(u.Elem(), depth+1)
+	case *types.Interface, *types.Signature:
+		return depth > 0 // an opaque value inside a captured object may hide a channel; a captured func/interface variable itself is left to its own contract
+	}
+	return false
 }
